@@ -10,7 +10,7 @@ import vcommon as V
 
 META = dict(
     text="Lean 4 theorems (Props/C07.lean) prove, for every pair of 64-bit integers, unsigned integers and 32-bit chars with no assumption, and for floats relative to a stated IEEE hypothesis record, that Compare/CompareFunction equal the mathematical order (NaN unordered from either side, trichotomy, (< a b) = (> b a)), that + - * wrap modulo 2^64, that division is exact when it divides and floating otherwise, and that a zero divisor is an error. The theorems are stated about a hand-written model and carried over to the code itself: on every run a Go-subset → Lean translator re-translates (*Zlisp).Compare, compare{Int,Uint64,Char,Float,Bool}, cmpInt64, signum*, NumericDo, NumericMatch{Float,Int,Uint64,Char}, Numeric{Float,Int,Uint64}Do, IntegerDo and UintegerDo from their current go/ast + go/types form, and the theorems generated_eq_model_compare / _numericDo / _modulo prove the translated functions equal to the model on all operands (gen_cmp_exact, gen_compareFn_spec, gen_int_arith_wraps, gen_div_mod_zero_is_error … restate the headline results on the translated code). A unit test can only sample pairs; the theorem covers all 2^128, for the source as it is now.",
-    note="Trusted: Lean kernel; axioms propext/Classical.choice/Quot.sound; IEEE-754 laws enter as hypotheses (IEEELaws), sampled not proved. NEW in the trusted base: the translator extract/ex_numtrans.go (≈1900 lines of Go) and its 60-line target vocabulary Model/GoSem.lean. It handles exactly: types int64/int/uint64/uint/int32(rune)/other sized ints (BitVec of that width, signedness by static type; Go `int` is taken to be 64 bits), float64 (abstract FloatSem carrier), bool, the interface Sexp restricted to the dynamic types *SexpInt/*SexpUint64/*SexpChar/*SexpFloat/*SexpBool (sum type Sx; a pointer to such a struct is its Val field, Typ/Scientific are not modelled), the enums NumericOp without Pow and IntegerOp, error as nil/non-nil; expressions: constants, locals, x.Val, &SexpT{Val: e}, integer↔integer and integer→float64 conversions, math.IsNaN, calls of translated functions, + - * / % & | ^ &^ << >> == != < <= > >= on integers with wrap-around (a zero divisor is the outcome `panic`), + - * / < > on floats, the float constant 0, && || !; statements: return, if/else with init, type switch on a Sexp, switch on an enum / integer / bool tag or tagless, break out of a switch, := = op= ++ -- on locals, var, blocks, `if v, ok := x.(I); ok` when no operand kind implements I, error values from errors.New / fmt.Errorf / fmt.Sprintf / package variables. Control flow is translated path by path; arms unreachable for the operand domain (other Sexp types, Pow) are skipped and listed in NumGo.skippedArms. Everything else (loops, closures, slices, strings as data, float ==/<=/>=, float→int, other calls, recursion, …) is REFUSED with function, construct and position: the function then falls back to its committed last-good translation Model/NumGoGood.lean (refreshed only by bin/numgo-accept) and is tied by correspondence only — reported in the evidence (coverage.translator.refused), not an alarm. The translator itself is validated on every run: the g-ops of channel `num` run the TRANSLATED Compare/NumericDo/IntegerDo (all 7 integer ops) and the Go originals on the exhaustive boundary grid (incl. bools) and on random 64-bit patterns, so a translator bug shows as a correspondence break rather than a false proof. Still hand-modelled and tied by correspondence only: the glue of CompareFunction (argument count, operator name → condition on the three-way result; genCompareFn in Props/C07.lean), the accumulation loop of NumericFunction, the name→op table of BinaryIntFunction, and CallUserFunction's recover.",
+    note="Trusted: Lean kernel; axioms propext/Classical.choice/Quot.sound; IEEE-754 laws enter as hypotheses (IEEELaws), sampled not proved. NEW in the trusted base: the translator extract/ex_numtrans.go (≈1900 lines of Go) and its 60-line target vocabulary Model/GoSem.lean. It handles exactly: types int64/int/uint64/uint/int32(rune)/other sized ints (BitVec of that width, signedness by static type; Go `int` is taken to be 64 bits), float64 (abstract FloatSem carrier), bool, the interface Sexp restricted to the dynamic types *SexpInt/*SexpUint64/*SexpChar/*SexpFloat/*SexpBool (sum type Sx; a pointer to such a struct is its Val field, Typ/Scientific are not modelled), the enums NumericOp without Pow and IntegerOp, error as nil/non-nil; expressions: constants, locals, x.Val, &SexpT{Val: e}, integer↔integer and integer→float64 conversions, math.IsNaN, calls of translated functions, + - * / % & | ^ &^ << >> == != < <= > >= on integers with wrap-around (a zero divisor is the outcome `panic`), + - * / < > on floats, the float constant 0, && || !; statements: return, if/else with init, type switch on a Sexp, switch on an enum / integer / bool tag or tagless, break out of a switch, := = op= ++ -- on locals, var, blocks, `if v, ok := x.(I); ok` when no operand kind implements I, error values from errors.New / fmt.Errorf / fmt.Sprintf / package variables. Control flow is translated path by path; arms unreachable for the operand domain (other Sexp types, Pow) are skipped and listed in NumGo.skippedArms. Operands are translated as VALUES: any construct that observes which object holds a value (== / != on Sexp or *SexpT references, nil tests) is refused, never skipped; what a value-level model cannot see by construction is covered by the `same` ops of channel `num`: ONE object as both operands, every operator × every grid value + random patterns, through Compare/NumericDo/IntegerDo(v, v), the builtin called with [v, v] and five script routes (variable twice, let, two parameters, one parameter twice, array element), judged by the spec on the values (Spec compare_is_value_level, Props nan_self_unordered); a refusal is accepted only when that shared-operand distribution was run (else it is reported as a proof break). Everything else (loops, closures, slices, strings as data, float ==/<=/>=, float→int, other calls, recursion, …) is REFUSED with function, construct and position: the function then falls back to its committed last-good translation Model/NumGoGood.lean (refreshed only by bin/numgo-accept) and is tied by correspondence only — reported in the evidence (coverage.translator.refused), not an alarm. The translator itself is validated on every run: the g-ops of channel `num` run the TRANSLATED Compare/NumericDo/IntegerDo (all 7 integer ops) and the Go originals on the exhaustive boundary grid (incl. bools) and on random 64-bit patterns, so a translator bug shows as a correspondence break rather than a false proof. Still hand-modelled and tied by correspondence only: the glue of CompareFunction (argument count, operator name → condition on the three-way result; genCompareFn in Props/C07.lean), the accumulation loop of NumericFunction, the name→op table of BinaryIntFunction, and CallUserFunction's recover.",
     technique="Lean 4 proof over a BitVec 64 model + Go-subset → Lean translation of the current source proved equal to the model (T1) + model/implementation and translation/implementation correspondence on a boundary grid (T2)",
     design_ref="DESIGN.md §3 T1 (Generated/Num.lean row), §5, §7 C07",
 )
@@ -36,12 +36,31 @@ def run(rep):
         return impl not in ("err", "bad-op")
     bad_spec, bad_model = V.correspondence(rep, "num", rows, stats, nontrivial=nontrivial)
     gen_rows = [r for r in rows if r[0].split()[1] in ("gcmp", "gar", "gint")]
-    rep.coverage["translator"]["validation_ops"] = len(gen_rows)
-    rep.coverage["translator"]["validation_mismatches"] = sum(1 for r in gen_rows if r[1] != r[2])
+    same_rows = [r for r in rows if r[0].split()[1] == "same"]
+    tr = rep.coverage["translator"]
+    tr["validation_ops"] = len(gen_rows)
+    tr["validation_mismatches"] = sum(1 for r in gen_rows if r[1] != r[2])
+    tr["shared_operand_ops"] = len(same_rows)
+    tr["shared_operand_routes"] = sorted({r[0].split()[2] for r in same_rows})
+    tr["shared_operand_mismatches"] = sum(1 for r in same_rows if r[1] != r[2] or (r[3] != "-" and r[1] != r[3]))
+    # A refused function has no proof about today's code: its tie is the correspondence of the
+    # last-good text with the Go original. That is only acceptable when the operand
+    # distribution covers what a value-level model cannot see by construction — one object used
+    # as both operands (every route) — and the translated-vs-Go and shared-operand columns are
+    # clean. (An unclean column is already a violation through `correspondence`.)
+    if tr.get("refused"):
+        need = {"api", "fn", "var", "let", "param", "self", "arr"}
+        missing = sorted(need - set(tr["shared_operand_routes"]))
+        if missing or not gen_rows:
+            rep.violation("proof-break", {"what": "the translator refused %s and the fallback correspondence does not cover shared operands (routes missing: %s) — the refused code has neither a proof nor an adequate correspondence"
+                                                  % ("; ".join(tr["refused"])[:400], ", ".join(missing) or "-"),
+                                          "theorem_or_correspondence": "generated_eq_model_* (fallback to Model/NumGoGood.lean)"}, no_input=True)
     rep.coverage["exhaustive"] = False
     rep.coverage["rule"] = ("every pair of the boundary grid (see harness/ch_num.go numGrid) under every comparison and arithmetic operator, "
                             "plus random 64-bit patterns; an op is non-trivial when the implementation answered with a value (not a type error); "
-                            "g-ops: the same grid (plus bools) and random patterns through the TRANSLATED Compare/NumericDo/IntegerDo against the Go originals")
+                            "g-ops: the same grid (plus bools) and random patterns through the TRANSLATED Compare/NumericDo/IntegerDo against the Go originals; "
+                            "same-ops: every grid value and random patterns with ONE OBJECT as both operands, under every operator, through the direct Go API "
+                            "(Compare/NumericDo/IntegerDo(v, v)), the builtin called with [v, v], and five script routes (variable twice, let, two parameters, one parameter twice, array element)")
     V.proof_break_resolution(rep, bool(bad_spec))
 
 
